@@ -76,6 +76,8 @@ structure Cache where
   curLoc : Nat
   curBatch : List Tok
   curRange : Range
+  /-- `opts.Except`: batch indices whose mask row is not causal (`SetCausal`); per forward pass -/
+  except : List Nat := []
 
 def roundDown (n pad : Nat) : Nat := (n / pad) * pad
 def roundUp (n pad : Nat) : Nat := ((n + pad - 1) / pad) * pad
@@ -243,7 +245,7 @@ inductive Fwd where
 deriving DecidableEq, Repr
 
 def startForward (c : Cache) (b : List Tok) : Cache × Fwd :=
-  let c1 := slide { c with curBatch := b } b
+  let c1 := slide { c with curBatch := b, except := [] } b   -- `c.opts.Except = nil`
   match findStart c1.cells b.length with
   | some loc => (finishForward c1 loc b, .ok)
   | none =>
@@ -258,6 +260,22 @@ def startForward (c : Cache) (b : List Tok) : Cache × Fwd :=
 def maskBit (c : Cache) (t : Tok) (j : Nat) : Bool :=
   let cell := c.cells.getD j Cell.empty
   decide (t.seq ∈ cell.seqs) && !(decide (cell.pos > t.pos)) && inWindow c.window cell.pos t.pos
+
+/-- mask entry with the causal test switched on (`enabled`) or off (batch index listed in
+    `opts.Except`): an excepted token also sees later positions of its sequence; the lower window
+    bound still applies -/
+def maskBitE (enabled : Bool) (c : Cache) (t : Tok) (j : Nat) : Bool :=
+  let cell := c.cells.getD j Cell.empty
+  decide (t.seq ∈ cell.seqs) && !(enabled && decide (cell.pos > t.pos)) && inWindow c.window cell.pos t.pos
+
+/-- the locations mask row `i` (token `t`) exposes, honouring `opts.Except` -/
+def exposedAt (c : Cache) (i : Nat) (t : Tok) : List Nat :=
+  (List.range' c.curRange.min (c.curRange.max + 1 - c.curRange.min)).filter (maskBitE (!c.except.contains i) c t)
+
+/-- `SetCausal(ctx, opts)` with a non-nil context: nothing happens unless the options changed; then
+    the mask is rebuilt (`buildMask` re-applies its padding to `curCellRange`) -/
+def setCausal (c : Cache) (ex : List Nat) : Cache :=
+  if c.except = ex then c else { c with except := ex, curRange := padRange c }
 
 /-- the locations mask row `t` exposes (within the padded current range) -/
 def exposed (c : Cache) (t : Tok) : List Nat :=
@@ -388,6 +406,8 @@ def wRemove : List Cache → Nat → Int → Int → List Cache × Rm
     match remove c seq b e with
     | (c1, .ok) => let r := wRemove cs seq b e; (c1 :: r.1, r.2)
     | (c1, r) => (c1 :: cs, r)
+
+def wSetCausal (cs : List Cache) (ex : List Nat) : List Cache := cs.map (fun c => setCausal c ex)
 
 def wCanResume (cs : List Cache) (seq : Nat) (pos : Int) : Bool := cs.all (fun c => canResume c seq pos)
 
